@@ -474,6 +474,8 @@ class ExprMixin:
                     idx = (idx,)
                 idx = tuple(self._cidx(i, 0, base.shape[k]) for k, i in enumerate(idx))
                 idx = idx + (0,) * (base.ndim - len(idx))
+                if base.size == 0:
+                    return Pointer(base.reshape(-1), 0, base)      # &empty[0]: never dereferenced by a correct caller
                 if not base.flags["C_CONTIGUOUS"]:
                     raise Unsupported("address of element of non-contiguous array")
                 off = int(np.ravel_multi_index(idx, base.shape))
